@@ -170,7 +170,7 @@ Theorem invocation_spec : forall cfg lookup now d caller req opts proc args kw o
       select_callee r oracle = Some (callee_id, next) /\ In callee_id (reg_callees r) /\
       lookup callee_id = Some callee /\
       let invid := idgen_next (s_invgen callee) in
-      let det := call_details cfg caller callee r opts proc in
+      let det := call_details cfg caller callee callee_id r opts proc in
       o = [(callee_id, RInvocation invid (reg_id r) det args kw)] /\
       callee' = set_invgen callee invid /\
       d' = call_first_state now d (s_id caller, req) opts r callee_id next callee /\
@@ -210,7 +210,7 @@ Theorem invocation_ppt : forall cfg lookup now d caller req opts proc args kw or
     cget (d_bycall d) (s_id caller, req) = None ->
     exists r callee_id callee,
       match_procedure d proc oracle = Some r /\ lookup callee_id = Some callee /\
-      let det := call_details cfg caller callee r opts proc in
+      let det := call_details cfg caller callee callee_id r opts proc in
       o = [(callee_id, RInvocation (idgen_next (s_invgen callee)) (reg_id r) det args kw)] /\
       (forall k, In k ppt_keys -> dget det k = if ppt_active opts then ppt_val opts k else None) /\
       (ppt_active opts = true ->
@@ -295,7 +295,8 @@ Theorem share_rules : forall cfg d callee req opts proc,
         <-> ((reg_policy r = "roundrobin" \/ reg_policy r = "random" \/ reg_policy r = "first" \/ reg_policy r = "last")
              /\ invoke = reg_policy r /\ ~ In sid (reg_callees r))) /\
        (share_ok r invoke sid = true ->
-        exists mps, register cfg d callee req opts proc = (share_state d r sid, [(sid, RRegistered req (reg_id r))], mps)) /\
+        exists mps, register cfg d callee req opts proc =
+                    (share_state d r sid (opt_bool opts "disclose_caller"), [(sid, RRegistered req (reg_id r))], mps)) /\
        (share_ok r invoke sid = false ->
         register cfg d callee req opts proc = (d, [(sid, RError c_REGISTER req [] e_procedure_exists [] [])], []))).
 Proof. exact share_rules_proof. Qed.
